@@ -49,6 +49,9 @@ EvalGrid(U) == ParamGrid(U, Deg(U) + 1) \cup Midpoints(U)
 
 (* the default nodes of fit_points: closed equispaced over the whole interval *)
 NCGrid(V, n) == [i \in 1..n |-> Add(Umin(V), Mul(Sub(Umax(V), Umin(V)), Q(i - 1, n - 1)))]
+(* a ladder of explicit tolerances of ratio 2: whatever the deviation of a lossy removal, some rung lies just below *)
+(* it and the next just above, so acceptance thresholds off by a factor (tolerance per knot, 2x, 1/2x) show      *)
+TolLadder == {<<"q", 1, 16>>, <<"q", 1, 8>>, <<"q", 1, 4>>, <<"q", 1, 2>>, <<"q", 1, 1>>, <<"q", 2, 1>>, <<"q", 4, 1>>, <<"q", 8, 1>>}
 Tols == {<<"default">>, <<"none">>, <<"q", 1, 2>>, <<"q", 0, 1>>, <<"e", 30>>}     \* 1e-9, None, 1/2, 0, 1e-30
 InteriorSet(U) == KnotSet(U) \ {Umin(U), Umax(U)}
 
@@ -120,9 +123,13 @@ MCArgs(name, h, dep) ==
          \cup (IF InteriorSet(U) = {} THEN {} ELSE
                {[obj |-> "a", nodes |-> <<CHOOSE x \in InteriorSet(U) : TRUE>>, tol |-> t] : t \in {<<"q", 1, 2>>, <<"e", 30>>}})
          \cup {[obj |-> "a", nodes |-> n, tol |-> <<"default">>] : n \in {<<Q(5, 7)>>, <<Umin(U)>>, <<Umax(U)>>}}
+         \cup (IF Lt(One, Width(U)) THEN {} ELSE
+               {[obj |-> "a", nodes |-> n, tol |-> t] : n \in MultisetsUpTo(InteriorSet(U), NodeSize) \ {<<>>}, t \in TolLadder})
     [] name = "CvDegreeDecrease" ->
          {[obj |-> "a", times |-> t, tol |-> <<"default">>, form |-> f] : t \in 1..2, f \in {"method", "setter"}}
          \cup {[obj |-> "a", times |-> 1, tol |-> t, form |-> "method"] : t \in Tols \ {<<"default">>}}
+         \cup (IF Lt(One, Width(U)) THEN {} ELSE
+               {[obj |-> "a", times |-> k, tol |-> t, form |-> "method"] : k \in 1..2, t \in TolLadder})
     [] name = "CvClean" ->
          \* explicit tolerance 1e-30: exact removals are still accepted, everything else must be refused (an inexact
          \* removal of these small-height rational data deviates by far more); curves with a tiny bump are cleaned
@@ -209,8 +216,10 @@ MCArgs(name, h, dep) ==
 
 BreaksQ == <<R(-1), R(0), R(2), R(3)>>
 BreaksT == <<R(0), Half, R(2), R(3)>>
+BreaksN == <<R(0), Q(1, 3), Q(2, 3), R(1)>>   \* a SHORT interval: max(1, umax-umin) = 1, the tolerance bound is not diluted
 DegsQ == 0..2
 DegsT == 0..3
 Degs4 == 0..4
+DegsN == 1..2
 Extra0 == {Zero, One}
 =============================================================================
